@@ -28,6 +28,8 @@ func c08(c *eng.Ctx, r *eng.Report) {
 		"R8.12 Stream.Kind() reports size 0 for a single byte below 0x80 as well as for the empty string/list, so wherever its size result is tested for zero the kind result of the same call is tested too on that path (`size == 0 && kind != Byte`) — otherwise a one-byte value is taken for an empty one; " +
 		"R8.13 no function of the package hands out or stores the address of an element of a slice field that the package also appends to (the pointer goes stale when the slice grows — list headers are written through such pointers); " +
 		"R8.14 what EncodeToBytes hands out is the caller's own: encbuf.toBytes returns a slice it allocated on every path, never (a re-slice of) a field of the pooled encbuf, which the next encoding overwrites; " +
+		"R8.15 readUint converts its 8-byte scratch buffer as a whole, so every byte of it is written in that call: the unused high-order bytes are zeroed before the value bytes are read (the buffer lives as long as the Stream; a narrower integer after a wider one must not inherit its high bytes); " +
+		"R8.16 a nil pointer is written as the empty form of what it points to — 0x80 for a byte array, 0xC0 for other arrays, structs and slices: makePtrWriter tests the element type of the pointed-to array (typ.Elem().Elem()), the decoder's `rlp:\"nil\"` rule accepts exactly that; " +
 		"R8.11 willRead returns nil only on paths that charged the read to both budgets: the enclosing list's position (or no list is open) and the stream's remaining input limit (or the stream is unlimited). " +
 		"Not decided: round-trip equality and uniqueness of encodings for all values; the rest of the encoder."
 	r.Assume = []string{"reflect and io.Reader behave as documented"}
@@ -44,6 +46,8 @@ func c08(c *eng.Ctx, r *eng.Report) {
 	c08EmptyNotByte(c, r)
 	c08NoElementPointers(c, r)
 	c08FreshOutput(c, r)
+	c08UintScratch(c, r)
+	c08NilPointerForm(c, r)
 }
 
 // payloadExempt: functions that pull bytes from the input without being the
@@ -968,4 +972,76 @@ func c08FreshOutput(c *eng.Ctx, r *eng.Report) {
 		}
 	}
 	r.Check(bad == "", rule, "toBytes:fresh", c.Pos(fn.Pos()), "every return is a slice allocated in toBytes", "(*encbuf).toBytes at "+bad+", memory that belongs to the pooled encoder buffer: EncodeToBytes puts the buffer back into the pool, the next encoding overwrites the bytes the earlier caller still holds — an encoded value no longer decodes to what was encoded once another value has been encoded")
+}
+
+// c08UintScratch: see R8.15.
+func c08UintScratch(c *eng.Ctx, r *eng.Report) {
+	const rule = "R8.15"
+	r.Min(rule, 1)
+	fn := c.Func(rlpPkg, "(*Stream).readUint")
+	if !r.Anchor(fn != nil, rule, "(*Stream).readUint") {
+		return
+	}
+	var conv ssa.Instruction
+	for _, s := range eng.Sites(fn) {
+		if strings.HasSuffix(s.Name(), "bigEndian).Uint64") {
+			conv = s.Instr
+		}
+	}
+	if conv == nil {
+		r.Pass(rule, "readUint:scratch-zeroed", c.Pos(fn.Pos()), "no whole-buffer conversion in readUint")
+		return
+	}
+	if a := conv.(ssa.CallInstruction).Common().Args; len(a) == 0 || !strings.Contains(eng.Desc(a[len(a)-1]), "uintbuf") {
+		r.Pass(rule, "readUint:scratch-zeroed", c.Pos(fn.Pos()), "the converted buffer is not the Stream's scratch buffer")
+		return
+	}
+	zeroed := false
+	for _, s := range eng.Sites(fn) {
+		if (s.Name() == "builtin:clear" || s.Name() == "builtin:copy") && strings.Contains(eng.Desc(s.Common().Args[0]), "uintbuf") && eng.Reaches(s.Instr, conv) {
+			zeroed = true
+		}
+	}
+	for _, b := range fn.Blocks {
+		for _, in := range b.Instrs {
+			st, ok := in.(*ssa.Store)
+			if !ok {
+				continue
+			}
+			ia, isIA := st.Addr.(*ssa.IndexAddr)
+			if !isIA {
+				continue
+			}
+			if _, f := eng.FieldOf(eng.Unwrap(ia.X)); f != "uintbuf" {
+				continue
+			}
+			if k, isK := eng.ConstInt(st.Val); isK && k == 0 && eng.Reaches(st, conv) {
+				zeroed = true
+			}
+		}
+	}
+	// or the converted slice is exactly the bytes read
+	r.Check(zeroed, rule, "readUint:scratch-zeroed", c.Pos(fn.Pos()), "the high-order bytes of the scratch buffer are zeroed before the whole buffer is converted", "readUint converts all 8 bytes of Stream.uintbuf but no longer zeroes the bytes it does not read: inside one stream a multi-byte integer (or long-form length) that is narrower than an earlier one inherits the earlier one's high bytes — []uint64{1<<40, 300} decodes wrong, a transaction with nonce 70000 decodes gas 21000 as 86536 and its hash changes")
+}
+
+// c08NilPointerForm: see R8.16.
+func c08NilPointerForm(c *eng.Ctx, r *eng.Report) {
+	const rule = "R8.16"
+	r.Min(rule, 1)
+	fn := c.Func(rlpPkg, "makePtrWriter")
+	if !r.Anchor(fn != nil, rule, "rlp.makePtrWriter") {
+		return
+	}
+	n, bad := 0, ""
+	for _, s := range eng.Sites(fn) {
+		if s.Name() != "storage/rlp.isByte" {
+			continue
+		}
+		n++
+		d := eng.Desc(s.Common().Args[0])
+		if strings.Count(d, ".Elem(") < 2 {
+			bad = d
+		}
+	}
+	r.Check(bad == "" && n >= 1, rule, "nil-pointer:byte-array-form", c.Pos(fn.Pos()), "the byte test is applied to the element type of the pointed-to array", "makePtrWriter applies isByte to "+bad+" — the pointed-to type itself, not the element type of the array it points to: the byte-array case never matches, a nil *[N]byte (*common.Address, *common.Hash) is written as 0xC0 instead of 0x80, accepted bytes no longer re-encode to themselves and a contract-creation transaction (nil recipient) changes its hash")
 }
